@@ -1468,7 +1468,7 @@ class TType:
     def __getitem__(self, item):
         return _t_child(self, '[', item)
 
-    def __call__(self, *args, **kwargs):
+    def __call__(self, /, *args, **kwargs):  # (any keyword can be recorded, self= too)
         if self is S:
             if args:
                 raise TypeError(f'S() takes no positional arguments, got: {args!r}')
